@@ -17,6 +17,11 @@ type Seg struct {
 	Data  []byte // bytes returned by this Read (split over several Reads if the buffer is smaller)
 	Err   error  // returned together with the last byte of Data, or alone if Data is empty
 	Stall bool   // block until the (real) deadline passes, Close, or Release
+	// Pause: the peer sends nothing for this long (virtual time).  If a read deadline is set and would fire
+	// during the pause the Read returns a timeout at once (and the remaining pause stays); otherwise the pause
+	// is skipped.  Pauses are compared one by one against the real clock, so several of them never add up
+	// against a deadline: the emulation can only be more lenient than real time, never stricter.
+	Pause time.Duration
 }
 
 // WStep is one step of a write script: the k-th Write accepts Accept bytes (<0: all) and returns Err.
@@ -207,6 +212,16 @@ func (c *ScriptConn) read(p []byte) (int, error, bool) {
 		}
 		if c.pos < len(c.segs) {
 			s := &c.segs[c.pos]
+			if s.Pause > 0 {
+				if !c.rdl.IsZero() && c.rdl.Before(time.Now().Add(s.Pause)) {
+					s.Pause -= time.Until(c.rdl)
+					c.VirtualFired = true
+					return 0, c.timeoutErr("read"), true
+				}
+				c.pos++
+				c.cond.Broadcast() // a waiting WaitConsumed sees the pause as consumed
+				continue
+			}
 			if s.Stall {
 				if c.released {
 					c.released = false
